@@ -81,7 +81,7 @@ def confirm(wt, n, sid, breaks):
     return 0 if ok else 1
 
 
-MIRROR = "/tmp/sv"
+MIRROR = os.environ.get("OSV_MIRROR", "/tmp/sv")
 
 
 def mirror_refresh():
